@@ -297,7 +297,8 @@ func main() {
 				report(f)
 				continue
 			}
-			if !reached[okT] {
+			// random commands (SPOP) are tested but never used as path steps: a replay would pop something else
+			if !reached[okT] && strings.ToLower(string(ce.argv[0])) != "spop" {
 				reached[okT] = true
 				np := make([]pathStep, len(paths[sid])+1)
 				copy(np, paths[sid])
